@@ -19,19 +19,20 @@ import (
 // C15 — label invalidation is complete, precise and loses nothing on failure (DESIGN §C15).
 
 type c15Cell struct {
-	Mode      string `json:"mode"`     // seq | conc
-	Deleters  string `json:"deleters"` // SM | SY | SM+SY | SM+faulty | OF
-	NKeys     int    `json:"nkeys"`
-	Repeat    bool   `json:"repeat"`              // every AddLabels call is issued twice
-	Cumul     bool   `json:"cumul,omitempty"`     // labels are added with a growing list: AddLabels(k,l1); AddLabels(k,l1,l2); ...
-	Collide   bool   `json:"collide,omitempty"`   // key 0 and key 1 have the same 64-bit hash
-	LateCache bool   `json:"latecache,omitempty"` // the caches are registered with AddCache only AFTER the keys were labelled
-	Reverse   bool   `json:"reverse"`             // registration order reversed
-	Names     int    `json:"names"`               // cache names (2: keys alternate between names, no fault injection)
-	Shard     int    `json:"shard"`               // incidence structures are split over NShards cells
-	NShards   int    `json:"nshards"`
-	Prog      int    `json:"prog,omitempty"` // conc: program index
-	Fail      int    `json:"fail,omitempty"` // conc: 1+index of the Delete call that fails during the concurrent phase (0 = none)
+	Mode         string `json:"mode"`     // seq | conc
+	Deleters     string `json:"deleters"` // SM | SY | SM+SY | SM+faulty | OF
+	NKeys        int    `json:"nkeys"`
+	Repeat       bool   `json:"repeat"`                 // every AddLabels call is issued twice
+	Cumul        bool   `json:"cumul,omitempty"`        // labels are added with a growing list: AddLabels(k,l1); AddLabels(k,l1,l2); ...
+	Collide      bool   `json:"collide,omitempty"`      // key 0 and key 1 have the same 64-bit hash
+	LateCache    bool   `json:"latecache,omitempty"`    // the caches are registered with AddCache only AFTER the keys were labelled
+	CancelledCtx bool   `json:"cancelledctx,omitempty"` // the first InvalidateByLabels call gets an already cancelled context
+	Reverse      bool   `json:"reverse"`                // registration order reversed
+	Names        int    `json:"names"`                  // cache names (2: keys alternate between names, no fault injection)
+	Shard        int    `json:"shard"`                  // incidence structures are split over NShards cells
+	NShards      int    `json:"nshards"`
+	Prog         int    `json:"prog,omitempty"` // conc: program index
+	Fail         int    `json:"fail,omitempty"` // conc: 1+index of the Delete call that fails during the concurrent phase (0 = none)
 }
 
 func (c c15Cell) id() string { js, _ := json.Marshal(c); return string(js) }
@@ -57,6 +58,11 @@ func c15Cells(tier string) []Cell {
 
 		for sh := 0; sh < nsh; sh++ {
 			cells = append(cells, Cell{ID: c15Cell{Mode: "seq", Deleters: d, NKeys: nkeys, Cumul: true, Names: 1, Shard: sh, NShards: nsh}.id()})
+		}
+
+		// the caller's context is already cancelled when it asks for the invalidation (the deleters here do not care)
+		for sh := 0; sh < nsh; sh++ {
+			cells = append(cells, Cell{ID: c15Cell{Mode: "seq", Deleters: d, NKeys: nkeys, CancelledCtx: true, Names: 1, Shard: sh, NShards: nsh}.id()})
 		}
 
 		// the application labels its keys before it registers the caches with the index
@@ -348,6 +354,8 @@ func c15One(cc c15Cell, cs c15Case) (string, string, int, int) {
 	e.failAt = cs.FailAt
 	e.calls = 0
 
+	ncallsMade := 0
+
 	call := func() (cnt int, err error, panicked interface{}) {
 		defer func() {
 			if r := recover(); r != nil {
@@ -355,7 +363,18 @@ func c15One(cc c15Cell, cs c15Case) (string, string, int, int) {
 			}
 		}()
 
-		cnt, err = e.idx.InvalidateByLabels(ctx, cs.Args...)
+		cctx := ctx
+		if cc.CancelledCtx && ncallsMade == 0 {
+			// the context is passed on to the deleters; whether it is still live is their business
+			c, cancel := context.WithCancel(ctx)
+			cancel()
+
+			cctx = c
+		}
+
+		ncallsMade++
+
+		cnt, err = e.idx.InvalidateByLabels(cctx, cs.Args...)
 
 		return cnt, err, nil
 	}
@@ -782,7 +801,7 @@ func init() {
 	Register(&Prop{
 		ID: "C15", Title: "Label invalidation is complete, precise and loses nothing on failure",
 		Cells: c15Cells, Run: c15Run,
-		Rule: "(seq) every key->label-subset incidence over 3 (quick) / 4 (thorough) keys x 3 labels, optionally with repeated labelling, reversed or cumulative (growing label list) registration, two keys with the same 64-bit hash, caches registered only after the keys were labelled, and a second round of re-writing, re-labelling and invalidating on the same index, x every ordered label argument list of length <=2 / <=3 (duplicates included) " +
+		Rule: "(seq) every key->label-subset incidence over 3 (quick) / 4 (thorough) keys x 3 labels, optionally with repeated labelling, reversed or cumulative (growing label list) registration, two keys with the same 64-bit hash, caches registered only after the keys were labelled, a first call under an already cancelled context, and a second round of re-writing, re-labelling and invalidating on the same index, x every ordered label argument list of length <=2 / <=3 (duplicates included) " +
 			"x deleters {ShardedMap, SyncMap, ShardedMapOf, ShardedMap+SyncMap, two ShardedMaps} x a Delete failure injected at EVERY call position of the fault-free run (plus none), followed by a retry with the fault cleared; " +
 			"(conc) 2-3 threads of AddLabels / AddCache / InvalidateByLabels on a shared index, all schedules within the bound, then a final sweep: every key labelled before or during the run must be removable, counts must add up",
 		Assumptions: []string{
